@@ -39,7 +39,9 @@ Definition enc_world (w : world) : T :=
        Tl [ count_th (fun h => match h with THEv _ => true | _ => false end) w;
             count_th (fun h => match h with THDone _ => true | _ => false end) w;
             count_th (fun h => match h with THTick _ => true | _ => false end) w;
-            Tnat (length (tasks w)); Tnat (length (queue w)); Tbool (bad w) ] ].
+            Tnat (length (tasks w)); Tnat (length (queue w));
+            Tnat (length (filter (fun e => negb (e_waiting e =? 0)) (evs w)));   (* events still holding waitingHandlers *)
+            Tbool (bad w) ] ].
 
 Definition obs_run (p : program) (gen_ev : bool) (scheds : list (list key)) (roots : list (nat * nat)) (n : nat) : T :=
   enc_world (run p gen_ev scheds roots n).
